@@ -33,6 +33,7 @@ THEOREMS = [("Arc.SqlAst.Props", t) for t in [
     "C14_transform_table_kind_refuted", "C14_paren_group_refuted", "C14_backslash_quote_refuted",
     "C14_quoted_comment_marker_refuted", "C14_quoted_comment_marker_string_position_refuted", "C14_query_function_refuted", "C14_header_cte_refuted",
     "C14_header_cte_slow_path_refuted", "C14_header_window_clause_refuted", "C14_lateral_string_injection_refuted", "C14_case_dedup_refuted",
+    "C14_backtick_in_quoted_alias_refuted", "C14_estring_escaped_quote_refuted",
 ]]
 TIE_NAME = ("C14 correspondence (QueryHandler.executeQuery via app.Test: ValidateSQLRequest, header checks, SHOW gate, "
             "checkQueryPermissions/extractTableReferences, getTransformedSQLForParallel/convertSQLToStoragePaths* "
@@ -70,6 +71,15 @@ WITNESSES = [
     ("header-cte-names-differ-from-permission-check", "SELECT * FROM secret WINDOW w1 AS (ORDER BY id), secret AS (ORDER BY id)", "db2", ["db2/secret"]),
     ("placeholder-as-table-name", "SELECT * FROM cpu a JOIN LATERAL ' || $$../db2/secret$$ || ' b ON true", "db1", ["db1/cpu", "db2/secret"]),
     ("case-insensitive-dedup", "SELECT * FROM cpu a JOIN CPU b ON a.id = b.id", "db1", ["db1/CPU", "db1/cpu"]),
+    ("backtick-inside-quoted-identifier", 'SELECT 1 AS "a`b", p.v FROM db1.cpu c, "%s" p' % P2, "", ["db1/cpu", "db2/secret"]),
+    ("estring-escaped-quote-then-quote", "SELECT E'a\\'' AS a, p.v FROM \"%s\" p WHERE 'x' = 'x'" % P2, "", ["db2/secret"]),
+]
+# GET /api/v1/query/:measurement?database=..&where=..  (where, database, measurement)
+MEASUREMENT_CASES = [
+    ("id >= (SELECT min(id) FROM db2.secret)", "db1", "cpu"), ("id IN (SELECT id FROM db2.secret WHERE tag <> 'x')", "db1", "cpu"),
+    ("EXISTS (SELECT 1 FROM db2.cpu s JOIN db2.secret t USING (id))", "db1", "mem"), ("id >= 0", "db1", "cpu"), ("host = 'h1' AND v IS NOT NULL", "db1", "mem"),
+    ("id >= (SELECT min(id) FROM db1.mem)", "db1", "cpu"), ("id >= 0", "db2", "secret"), ("id IN (SELECT id FROM \"%s\")" % P2, "db1", "cpu"),
+    ("id >= (SELECT min(id) FROM secret)", "db1", "cpu"),
 ]
 
 # statements the gate must refuse (or check): each would read db2 if a guard disappeared
@@ -83,6 +93,20 @@ GUARD_PROBES = [
     ("SELECT * FROM db1.cpu a LEFT JOIN LATERAL db2.secret b ON true", ""), ("SELECT * FROM secret", "db2"), ("SELECT * FROM cpu a NATURAL JOIN secret b", "db2"),
     ("SELECT * FROM db2.secret", "db1"), ("SELECT * FROM cpu; SELECT * FROM db2.secret", "db1"), ("SHOW TABLES FROM db2", ""), ("SHOW TABLES", "db2"),
     ("/* x */ SHOW TABLES FROM db2", ""), ("SELECT * FROM /* c */ db2.secret", ""), ("SELECT * FROM db1.cpu WHERE id IN (SELECT id FROM db2.secret)", ""),
+    # the four builtins whose argument list contains FROM, used as column names and followed by an operator and a subquery
+    ('SELECT t.trim + (SELECT max(p.v) FROM db1.cpu c, "%s" p) FROM (SELECT 1 AS trim) t' % P2, ""),
+    ('SELECT trim + (SELECT max(p.v) FROM db1.cpu c, "%s" p) FROM (SELECT 1 AS trim) t' % P2, ""),
+    ('SELECT overlay - (SELECT max(p.v) FROM db1.cpu c, "%s" p) FROM (SELECT 1 AS overlay) t' % P2, ""),
+    ('SELECT "extract" * (SELECT max(p.v) FROM db1.cpu c, "%s" p) FROM (SELECT 1 AS "extract") t' % P2, ""),
+    ('SELECT substring + (SELECT max(p.v) FROM db1.cpu c, \'%s\' p) FROM (SELECT 1 AS substring) t' % P2, ""),
+    ('SELECT extract(year FROM DATE \'2024-01-01\') + (SELECT max(p.v) FROM db1.cpu c, "%s" p)' % P2, ""),
+    ('SELECT trim(BOTH \'x\' FROM (SELECT max(p.tag) FROM db1.cpu c, "%s" p))' % P2, ""),
+    # E-strings ending in an even run of backslashes, then hidden FROM text and a re-pairing literal
+    ("SELECT E'\\\\' AS a, p.v FROM \"%s\" p WHERE 'x' = 'x'" % P2, ""),
+    ("SELECT E'ab\\\\\\\\' AS a, p.v FROM db1.cpu c, \"%s\" p WHERE c.host <> 'x'" % P2, ""),
+    ("SELECT E'a\\'' AS a, p.v FROM db1.cpu c, \"%s\" p WHERE 'x' = 'x'" % P2, ""),
+    ("SELECT e'\\\\', p.v FROM \"%s\" p WHERE p.tag <> 'x'" % P2, ""),
+    ('SELECT 1 AS `a"b`, p.v FROM db1.cpu c, "%s" p' % P2, ""), ('SELECT 1 AS "a`b`c", p.v FROM db1.cpu c, "%s" p' % P2, ""),
     ("COPY (SELECT 1) TO '%s/x'" % L.ROOT_TOKEN, ""), ("ATTACH '%s/x.db'" % L.ROOT_TOKEN, ""), ("SET enable_external_access = true", ""),
 ]
 
@@ -104,8 +128,14 @@ def signature(case, cl, flags, out):
     """the class of an oracle failure (must be narrow; it is matched against known_findings/C14.json)"""
     sql = case["sql"]
     rt = route_of(sql)
+    if case.get("ep") == "measurement":
+        return "query-measurement-where-subquery"
     if any(a.startswith("__STR_") for _, a in cl["checked"]):
         return "placeholder-as-table-name"
+    if not (L.FIXBITS & 256) and re.search(r'"[^"`]*`[^"]*"', sql) and not flags["pathlike_free"]:
+        return "backtick-inside-quoted-identifier"
+    if not (L.FIXBITS & 256) and re.search(r"(?i)\be'[^']*\\''", sql) and not flags["pathlike_free"]:
+        return "estring-escaped-quote-then-quote"
     if case["hdr"] and not flags["hdr_ctes_ok"]:
         return "header-cte-names-differ-from-permission-check"
     if rt == "raw-no-from-join":
@@ -251,10 +281,17 @@ def build_cases(rng, tier):
         cases.append(L.mk_case(mutate(rng, g["sql"]), g["hdr"]))
         meta.append({"src": "mutated", "labels": g["labels"], "disguises": g["disguises"], "items": []})
     # a sample through the other endpoints that share the gate: only accept/reject, checked set and canaries
+    for where, db, meas in MEASUREMENT_CASES:
+        assembled = "SELECT * FROM %s.%s WHERE %s ORDER BY id LIMIT 100 OFFSET 0" % (db, meas, where)
+        cases.append(L.mk_case(assembled, "", allow=["*"]))
+        meta.append({"src": "measurement-twin", "labels": [], "disguises": [], "items": []})
+        cases.append(dict(L.mk_case(where, db, allow=["db1"]), ep="measurement", meas=meas))
+        meta.append({"src": "endpoint:measurement", "labels": [], "disguises": [], "items": [], "twin": len(cases) - 2})
     nq = len(cases)
     first_gen = (len(WITNESSES) + len(GUARD_PROBES) + len(L.QUALIFIED_EXCLUSION_PROBES) + len(L.cache_pairs())
                  + len(L.cte_quoting_matrix()) + len(corpus_cases()))
     twins = [0, 2, 5, 10, 21, 24] + list(range(first_gen, min(first_gen + 10, nq)))
+    twins = [t for t in twins if cases[t]["ep"] == "query"]
     for ep in ("estimate", "arrow", "msgpack"):
         for t in twins:
             cases.append(dict(cases[t], ep=ep, reads=False))
@@ -325,7 +362,16 @@ def run(res, tier, seed):
     disagreements, oracle_fail, unexplained, spec_bad, reproduced = [], [], [], [], {}
     parity, dis_leak = [], []
     for i, (c, m, o, cl, fl) in enumerate(zip(cases, meta, outs, cls, flags)):
-        if c["ep"] != "query":
+        if c["ep"] == "measurement":
+            # GET /api/v1/query/:measurement assembles a statement and must treat it like POST /api/v1/query does:
+            # same executed text as the assembled statement sent to /query (which the model checks), every read checked
+            t = m["twin"]
+            if o.get("executed") is not None and outs[t].get("executed") is not None and o["executed"] != outs[t]["executed"]:
+                parity.append(i)
+            fl.update(flags[t])
+            fl["agree"], fl["in_domain"] = True, False
+            bad = leaked(c, cl, o) if o.get("status") == 200 else []
+        elif c["ep"] != "query":
             # the other endpoints share the gate: same accept/reject and the same checked list as /api/v1/query
             t = m["twin"]
             # (SHOW is answered by /api/v1/query only: the others run the same permission check and then say "not supported")
